@@ -173,6 +173,19 @@ fn case_secs(loc: &mut Local, x: &Ix, s: i64, ns: i64) {
             Err(p) => loc.violation(&format!("C02/NaiveDateTime::from_timestamp_opt/panic@{}", p.site()), json!({"input": input, "panic": p.to_json()})),
         }
     }
+    // the zone-generic wrappers on a non-UTC zone must denote the same instant (they are separate code)
+    if (s ^ ns) & 7 == 0 {
+        let off = [3600, -16_200, 86_399, -86_399, 1][((s as u64 ^ ns as u64) >> 3) as usize % 5];
+        let fo = chrono::FixedOffset::east_opt(off).unwrap();
+        match guard(|| mlt(fo.timestamp_opt(s, ns as u32))) {
+            Ok(g) => {
+                if g.map(|d| (d.naive_utc(), d.offset().local_minus_utc())) != got.map(|d| (d.naive_utc(), off)) {
+                    loc.violation("C02/FixedOffset.timestamp_opt/differs-from-from_timestamp", json!({"input": input, "offset": off, "utc": show(&got), "observed": format!("{:?}", g.map(|d| d.naive_utc()))}));
+                }
+            }
+            Err(p) => loc.violation(&format!("C02/FixedOffset.timestamp_opt/panic@{}", p.site()), json!({"input": input, "offset": off, "panic": p.to_json()})),
+        }
+    }
     // buckets
     let (lo, hi) = (min_secs(), max_secs());
     if s < lo {
@@ -215,6 +228,27 @@ fn case_secs(loc: &mut Local, x: &Ix, s: i64, ns: i64) {
     }
     loc.sample(|| json!({"from_timestamp": [s, ns], "result": show(&got)}));
 
+    // a leap-second representation converts to the system clock as seconds + fraction (one way only)
+    if let (Some(dt), true) = (got, ns >= 1_000_000_000) {
+        let total: i128 = s as i128 * 1_000_000_000 + ns as i128;
+        let st = if total >= 0 {
+            UNIX_EPOCH.checked_add(Duration::new((total / 1_000_000_000) as u64, (total % 1_000_000_000) as u32))
+        } else {
+            let back = -total;
+            UNIX_EPOCH.checked_sub(Duration::new((back / 1_000_000_000) as u64, (back % 1_000_000_000) as u32))
+        };
+        if let Some(st) = st {
+            loc.eval();
+            match guard(|| SystemTime::from(dt)) {
+                Ok(st2) => {
+                    if st2 != st {
+                        loc.violation("C02/Into<SystemTime>/wrong-instant/leap-second-representation", json!({"input": input, "value": show(&got)}));
+                    }
+                }
+                Err(p) => loc.violation(&format!("C02/Into<SystemTime>/panic@{}/leap-second-representation", p.site()), json!({"input": input, "panic": p.to_json()})),
+            }
+        }
+    }
     // SystemTime both ways (instants both sides can hold, non-leap)
     if let (Some(dt), true) = (got, ns < 1_000_000_000) {
         let st = if s >= 0 {
@@ -246,6 +280,30 @@ fn case_secs(loc: &mut Local, x: &Ix, s: i64, ns: i64) {
 }
 
 /// unit: 0 = millis, 1 = micros, 2 = nanos
+/// The zone-generic wrappers `timestamp_millis_opt`, `timestamp_micros`, `timestamp_nanos` on a
+/// non-UTC zone: same instant as the UTC constructors, offset of the zone.
+fn case_unit_zone(loc: &mut Local, unit: u32, v: i64, exp: Option<DateTime<Utc>>) {
+    let off = [3600, -16_200, 86_399, -86_399, 1][(v as u64 % 5) as usize];
+    let fo = chrono::FixedOffset::east_opt(off).unwrap();
+    let name = ["FixedOffset.timestamp_millis_opt", "FixedOffset.timestamp_micros", "FixedOffset.timestamp_nanos"][unit as usize];
+    let r = guard(|| match unit {
+        0 => mlt(fo.timestamp_millis_opt(v)),
+        1 => mlt(fo.timestamp_micros(v)),
+        _ => Some(fo.timestamp_nanos(v)),
+    });
+    match r {
+        Ok(g) => {
+            if g.map(|d| (d.naive_utc(), d.offset().local_minus_utc())) != exp.map(|d| (d.naive_utc(), off)) {
+                loc.violation(&format!("C02/{}/differs-from-utc-constructor", name), json!({"input": v, "offset": off, "expected_utc": show(&exp), "observed_utc": format!("{:?}", g.map(|d| d.naive_utc()))}));
+            }
+        }
+        Err(p) => {
+            // timestamp_nanos cannot fail; the other two report failure by value
+            loc.violation(&format!("C02/{}/panic@{}", name, p.site()), json!({"input": v, "offset": off, "panic": p.to_json()}));
+        }
+    }
+}
+
 fn case_unit(loc: &mut Local, x: &Ix, unit: u32, v: i64) {
     let k: i64 = [1000, 1_000_000, 1_000_000_000][unit as usize];
     let per: i64 = 1_000_000_000 / k;
@@ -270,6 +328,7 @@ fn case_unit(loc: &mut Local, x: &Ix, unit: u32, v: i64) {
                 Err(p) => return loc.violation(&format!("C02/from_timestamp_millis/panic@{}", p.site()), json!({"input": v, "panic": p.to_json()})),
             };
             check_value(loc, x, "from_timestamp_millis", input.clone(), got, exp);
+            case_unit_zone(loc, 0, v, got);
             if exp.is_none() {
                 loc.bucket(x.ms_oor)
             }
@@ -296,6 +355,7 @@ fn case_unit(loc: &mut Local, x: &Ix, unit: u32, v: i64) {
                 Err(p) => return loc.violation(&format!("C02/from_timestamp_micros/panic@{}", p.site()), json!({"input": v, "panic": p.to_json()})),
             };
             check_value(loc, x, "from_timestamp_micros", input.clone(), got, exp);
+            case_unit_zone(loc, 1, v, got);
             if exp.is_none() {
                 loc.bucket(x.us_oor)
             }
@@ -323,6 +383,7 @@ fn case_unit(loc: &mut Local, x: &Ix, unit: u32, v: i64) {
                 Err(p) => return loc.violation(&format!("C02/from_timestamp_nanos/panic@{}", p.site()), json!({"input": v, "panic": p.to_json()})),
             };
             check_value(loc, x, "from_timestamp_nanos", input.clone(), got, exp);
+            case_unit_zone(loc, 2, v, got);
             if let Some(dt) = got {
                 if dt.timestamp_nanos_opt() != Some(v) {
                     loc.violation("C02/from_timestamp_nanos/readback", json!({"input": v, "observed": dt.timestamp_nanos_opt()}));
